@@ -346,13 +346,13 @@ def scenarios(ctx):
         scs.append({"kind": o["k"], "samples": [f"s{k}" for k in range(len(o["calls"]))],
                     "recs": [record_from_shape(o, 100 + 10 * (i % 50), i)], "hist": [{"op": "U"}, {"op": "U"}]})
     # ---- (b) seeded random multi-record files ----
-    n = 300 if q else 4000
+    n = 300 if q else 12000
     scs += [random_file(rng, i) for i in range(n)]
     ctx.notes["random_files"] = n
     # ---- (c) command histories from the VcfHistory state machine on phase-able files ----
     hs = [h for h in emit_histories(ctx, 2, 3 if q else 4, inits="Small") if any(o["op"] == "U" for o in h)]
     ctx.notes["tlc_emitted_histories_with_unphase"] = len(hs)
-    reps = 1 if q else 2
+    reps = 1 if q else 4
     for i, h in enumerate(hs):
         for rep in range(reps):
             pre = ["none", "PS", "HP", "mixed"][(i + rep) % 4]
